@@ -50,7 +50,17 @@ def run(ctx):
             m = re.match(r"(\w+) scenario (\d+)", want)
             if m:
                 env["VERIF_C09_ONLY"] = "%s:%s" % (m.group(1), m.group(2))
-        lines, rc, err = ctx.run_driver(drv, ["all"], env=env, timeout=(900 if ctx.tier == "thorough" else 300))
+        import subprocess
+        try:
+            lines, rc, err = ctx.run_driver(drv, ["all"], env=env, timeout=(1500 if ctx.tier == "thorough" else 600))
+        except subprocess.TimeoutExpired as te:
+            # the driver's own watchdog ends a blocked scenario after 60 s; getting here means it kept producing lines, slowly
+            def txt(b): return b.decode("utf-8", "replace") if isinstance(b, (bytes, bytearray)) else (b or "")
+            lines, rc, err = txt(te.stdout).split("\n"), 0, txt(te.stderr)
+            marks = re.findall(r"^scenario (\w+) (\d+)(?: took (\S+))?$", err, re.M)
+            slow = re.findall(r"^slow scenario .*$", err, re.M)
+            broken.append({"kind": "obligation", "name": "driver c09 did not finish within its time limit",
+                           "detail": "scenarios started: %d, last: %s; %s" % (len(marks), " ".join(marks[-1][:2]) if marks else "-", "; ".join(slow[-8:]))})
         crashed = None
         if rc != 0:
             last = re.findall(r"^scenario (\w+) (\d+)$", err, re.M)
@@ -78,10 +88,10 @@ def run(ctx):
             if "\t" in l:
                 o = l.split("\t")[1]
                 ctx.coverage["outcomes"][o] = ctx.coverage["outcomes"].get(o, 0) + 1
-    ctx.coverage["rule"] = ("Writer: 8 steered schedule families (Close while a call sits in its metadata lookup = D1 window, with/without earlier traffic, "
-                            "cancel inside lookup / while waiting for a batch, use after close; sync+async) x repetitions, plus random scripts of begin/hold/release/cancel/"
+    ctx.coverage["rule"] = ("Writer: 10 steered schedule families (Close while a call sits in its metadata lookup = D1 window, with/without earlier traffic, "
+                            "cancel inside lookup / while waiting for a batch that has no other way out, use after close, async write + Close from one goroutine on a single P; sync+async) x repetitions, plus random scripts of begin/hold/release/cancel/"
                             "close/probe/pause over BatchSize 1..3, MaxAttempts 1..3, BatchTimeout 1-3ms or 1h, produce outcomes ok/temporary/permanent. "
-                            "Writer of NewWriter over its own Transport against a protocol-level loopback broker (6 families: answered / failing / held produce, Close during the metadata refresh, cancel, use after close; census of broker-side connections and goroutines after the timeouts). Reader/ConsumerGroup/Transport: scenario families listed in docs/notes/C09.md; grun = ConsumerGroup.Close hook traces replayed deterministically through Model/GroupRun. distinct = distinct observed traces")
+                            "Writer of NewWriter over its own Transport against a protocol-level loopback broker (6 families: answered / failing / held produce, Close during the metadata refresh, cancel, use after close; census of broker-side connections and goroutines after the timeouts). Reader/ConsumerGroup/Transport: scenario families listed in docs/notes/C09.md (17 reader kinds incl. ListOffsets failures inside the fetcher's initialize, the lag monitor, partition watcher on every second scenario, 20 s back-offs on odd ones; 10 transport kinds incl. a connect that completes after its caller left); every scenario closes twice; grun = ConsumerGroup.Close hook traces replayed deterministically through Model/GroupRun. distinct = distinct observed traces")
     concrete = [d for d in dis if d.get("kind") == "disagreement" and not d["holds_on_impl"]]
     others = [d for d in dis if d not in concrete]
     recorded = 0
